@@ -6,8 +6,10 @@ usage:  python3 /verif/replay/run.py [-v] [--observe] <counterexample.json>
 The file is what /verif/check writes ({"property","obligation","label","exit","model","scenario"}) or a
 bare scenario object.  scenario["predicted"] holds the observable outcome the symbolic engine predicts;
 only the keys present in it are compared with the native observations (integers are compared as big
-integers whether they are JSON numbers or decimal strings; lists of objects that carry an "id" are
-compared sorted by id; "Err(sym)"/"Err(?)"/"Err" match any error exit, "panic..." matches any panic).
+integers whether they are JSON numbers or decimal strings; nested objects such as the miner adapter's
+"state"/"info" are compared recursively, again only on the keys the prediction mentions; lists of objects
+that carry an "id" are compared sorted by id, all other lists positionally and with equal length;
+"Err(sym)"/"Err(?)"/"Err" match any error exit, "panic..." matches any panic).
 
 exit 1 = REPRODUCED      the native run yields exactly the predicted observable outcome
 exit 0 = NOT reproduced  the native outcome differs (a predicted/observed diff is printed)
@@ -116,7 +118,7 @@ def build(repo):
     """returns (binary path, seconds spent in cargo); exits 2 on failure"""
     repo = os.path.realpath(repo)
     for need in ('Cargo.lock', 'runtime/Cargo.toml', 'actors/paych/Cargo.toml', 'actors/multisig/Cargo.toml',
-                 'actors/market/Cargo.toml'):
+                 'actors/market/Cargo.toml', 'actors/miner/Cargo.toml'):
         if not os.path.exists(os.path.join(repo, need)):
             die('VERIF_REPO=%s does not look like a builtin-actors checkout (%s missing)' % (repo, need))
     h = hashlib.sha1(repo.encode()).hexdigest()[:12]
